@@ -294,6 +294,80 @@ def match_any_attr(which, nodes):
     return out
 
 
+def post_both_none(ctx, s):
+    """`if (self._a is None) and (self._b is None) [and ...]: raise` -> [fields]"""
+    if not (isinstance(s, ast.If) and not s.orelse and len(s.body) == 1 and isinstance(s.body[0], ast.Raise)
+            and isinstance(s.test, ast.BoolOp) and isinstance(s.test.op, ast.And) and len(s.test.values) >= 2):
+        return None
+    out = []
+    for t in s.test.values:
+        if not (isinstance(t, ast.Compare) and len(t.ops) == 1 and isinstance(t.ops[0], ast.Is)
+                and isinstance(t.comparators[0], ast.Constant) and t.comparators[0].value is None and _self_attr(t.left)):
+            return None
+        out.append(ctx.field_of(t.left)[0])
+    return out
+
+
+def post_equal_means_both_absent(ctx, s):
+    """`if self._a == self._b: raise` -> [a, b]   (the caller verifies that == can only hold when both are None)"""
+    if isinstance(s, ast.If) and not s.orelse and len(s.body) == 1 and isinstance(s.body[0], ast.Raise) \
+            and isinstance(s.test, ast.Compare) and len(s.test.ops) == 1 and isinstance(s.test.ops[0], ast.Eq) \
+            and _self_attr(s.test.left) and _self_attr(s.test.comparators[0]):
+        return [ctx.field_of(s.test.left)[0], ctx.field_of(s.test.comparators[0])[0]]
+    return None
+
+
+def post_required_if(ctx, stmts):
+    """else branch `x = <enum member>; if self.<key> == x: raise` -> (key field, member)"""
+    if len(stmts) == 2 and isinstance(stmts[0], ast.Assign) and len(stmts[0].targets) == 1 and isinstance(stmts[0].targets[0], ast.Name) \
+            and isinstance(stmts[1], ast.If) and not stmts[1].orelse and len(stmts[1].body) == 1 and isinstance(stmts[1].body[0], ast.Raise):
+        t = stmts[1].test
+        x = stmts[0].targets[0].id
+        if isinstance(t, ast.Compare) and len(t.ops) == 1 and isinstance(t.ops[0], ast.Eq) and _self_attr(t.left) \
+                and _is_name(t.comparators[0], x):
+            import enum as _enum
+            member = ctx.evaluate(stmts[0].value)
+            if not isinstance(member, _enum.Enum) or isinstance(member.value, bool) or not isinstance(member.value, int):
+                raise ctx.err(stmts[0], 'the compared value is not an integer enumeration member')
+            return ctx.field_of(t.left)[0], member
+    return None
+
+
+def resolve_posts(ctx, node, items, posts, minver):
+    """field names -> indices among the ACTIVE items; the indices must be the same for every version of the check's range"""
+    out = []
+    for q in posts:
+        lo, hi = q['guard']
+        if minver is not None:
+            lo = max(lo, minver)
+        versions = [v for v in sorted(VERSION_CODES.values()) if lo <= v < hi]
+        if not versions:
+            continue
+
+        def index(field, v):
+            act = [it for it in items if it['lo'] <= v < it['hi']]
+            hit = [k for k, it in enumerate(act) if it['field'] == field]
+            if len(hit) != 1:
+                raise ctx.err(node, 'post-condition on %s: not exactly one active item under version %d' % (field, v))
+            return hit[0], act[hit[0]]
+        c = q['check']
+        forms = set()
+        for v in versions:
+            if c[0] == 'AtLeastOneOf':
+                forms.add(('AtLeastOneOf', tuple(index(f, v)[0] for f in c[1])))
+            else:
+                ix, it = index(c[1], v)
+                key, kit = index(c[2], v)
+                if kit['kind'] != ('enum', type(c[3]).__name__) or kit['mult'] not in ('Req', 'Opt'):
+                    raise ctx.err(node, 'post-condition: %s is not a single enumeration item of %s' % (c[2], type(c[3]).__name__))
+                forms.add(('RequiredIf', ix, key, '(VEnum %d)' % c[3].value))
+        if len(forms) != 1:
+            raise ctx.err(node, 'post-condition: the positions of its fields change with the version inside its range')
+        f = next(iter(forms))
+        out.append({'lo': lo, 'hi': hi, 'check': [f[0], list(f[1])] if f[0] == 'AtLeastOneOf' else list(f)})
+    return out
+
+
 def copy_node(n):
     import copy
     return copy.deepcopy(n)
@@ -433,6 +507,7 @@ class ReadWalker:
         self.attr_of = {}           # field -> raw attribute name on self
         self.rebind = None          # index of the ProtocolVersion item kmip_version is rebound from
         self.rebind_nested = None   # ... or class of the header item whose ProtocolVersion it is rebound from
+        self.posts = []             # post-conditions: {'guard', 'check': ('AtLeastOneOf', [fields]) | ('RequiredIf', field, key, member)}
         self.minver = None          # class-level refusal `if kmip_version < V: raise VersionNotSupported`
 
     # -- recognisers
@@ -848,9 +923,28 @@ class ReadWalker:
                         mult = 'Req'
                     elif len(s.orelse) == 1 and self.is_reset(s.orelse[0], field_node):
                         mult = 'Opt'
+                    elif post_required_if(self.ctx, s.orelse):
+                        # optional, but required when an earlier enumeration item has a given value
+                        mult = 'Opt'
+                        key, member = post_required_if(self.ctx, s.orelse)
+                        self.add(s, field_node, tag, kind, guard, mult)
+                        self.posts.append({'guard': guard, 'check': ('RequiredIf', self.items[-1]['field'], key, member)})
+                        self.flags.add('post')
+                        continue
                     else:
                         raise self.ctx.err(s.orelse[0], 'else branch of is_tag_next is neither a single raise nor self.<field> = None')
                     self.add(s, field_node, tag, kind, guard, mult)
+                    continue
+                pf = post_both_none(self.ctx, s)
+                if pf:
+                    self.posts.append({'guard': guard, 'check': ('AtLeastOneOf', pf)})
+                    self.flags.add('post')
+                    continue
+                pf = post_equal_means_both_absent(self.ctx, s)
+                if pf:
+                    self.check_eq_means_absent(s, pf)
+                    self.posts.append({'guard': guard, 'check': ('AtLeastOneOf', pf)})
+                    self.flags.add('post')
                     continue
                 ne = self.nonempty_check(s)
                 if ne:
@@ -947,6 +1041,12 @@ class ReadWalker:
                 if nxt is not None:
                     i = nxt
                     continue
+            # self._f = None directly before the `if is_tag_next` that decodes self._f (reset-before instead of else-reset)
+            if isinstance(s, ast.Assign) and len(s.targets) == 1 and _self_attr(s.targets[0]) and isinstance(s.value, ast.Constant) \
+                    and s.value.value is None and i < len(stmts) and isinstance(stmts[i], ast.If) and stmts[i].body \
+                    and isinstance(stmts[i].body[0], ast.Assign) and len(stmts[i].body[0].targets) == 1 \
+                    and ast.dump(stmts[i].body[0].targets[0]) == ast.dump(s.targets[0]) and not stmts[i].orelse:
+                continue
             # empty-list initialisation / storing a local list
             if isinstance(s, ast.Assign) and len(s.targets) == 1:
                 t, v = s.targets[0], s.value
@@ -1072,6 +1172,20 @@ class ReadWalker:
                 it['mult'] = 'Many1'
         return True
 
+    def check_eq_means_absent(self, node, fields):
+        """`self._a == self._b` is used as "both absent": verify that default instances of the two item classes never compare equal"""
+        ks = []
+        for f in fields:
+            its = [it for it in self.items if it['field'] == f]
+            if len(its) != 1 or its[0]['kind'][0] != 'struct' or its[0]['mult'] != 'Opt':
+                raise self.ctx.err(node, '== between fields that are not optional structure items')
+            ks.append(self.kinds.classes[its[0]['kind'][1]])
+        if ks[0] is ks[1]:
+            raise self.ctx.err(node, '== between two items of the same class can hold for present values')
+        a, b = ks[0](), ks[1]()
+        if (a == b) is True or (b == a) is True or not (None == None):
+            raise self.ctx.err(node, '== between %s and %s can hold for present values' % (ks[0].__name__, ks[1].__name__))
+
     def is_reset(self, s, field_node):
         return isinstance(s, ast.Assign) and len(s.targets) == 1 and isinstance(s.value, ast.Constant) \
             and s.value.value is None and ast.dump(s.targets[0]) == ast.dump(field_node)
@@ -1131,6 +1245,7 @@ class WriteWalker:
         self.minver = None
         self.nonempty = set()   # fields guarded by `if len(self._xs) == 0: raise`
         self.key_required = {}  # dispatched field -> fields whose absence makes write() raise before emitting it
+        self.posts = []
 
     def write_call(self, s, buf=None):
         """`<target>.write(buf, kmip_version=kmip_version)` -> target node"""
@@ -1268,6 +1383,10 @@ class WriteWalker:
             if ne:
                 self.nonempty.add(ne)
                 continue
+            pf = post_both_none(self.ctx, s) or post_equal_means_both_absent(self.ctx, s)
+            if pf:
+                self.posts.append({'guard': guard, 'check': ('AtLeastOneOf', pf), 'eq': post_both_none(self.ctx, s) is None})
+                continue
             if isinstance(s, ast.If):
                 vt = version_test(s.test)
                 if vt is not None:
@@ -1312,6 +1431,10 @@ class WriteWalker:
                         mult = 'Opt'
                     elif len(s.orelse) == 1 and isinstance(s.orelse[0], ast.Raise):
                         mult = 'Req'
+                    elif post_required_if(self.ctx, s.orelse):
+                        mult = 'Opt'
+                        key, member = post_required_if(self.ctx, s.orelse)
+                        self.posts.append({'guard': guard, 'check': ('RequiredIf', field, key, member)})
                     else:
                         raise self.ctx.err(s.orelse[0], 'else branch of a presence test is not a single raise')
                 else:
@@ -1504,7 +1627,11 @@ def translate_class(ctx, kinds):
             if not bys or bys[0]['key_field'] != kf:
                 raise Untranslatable(ctx.file, it['line'], '%s: write() refuses %s when %s is absent, which is not its dispatch key' % (ctx.name, it['field'], kf))
         wr_items.append(wi)
-    return {'name': ctx.name, 'module': ctx.mod.__name__, 'file': ctx.file,
+    post_rd = resolve_posts(ctx, rdef, r.items, r.posts, minver)
+    post_wr = resolve_posts(ctx, wdef, wr_items, w.posts, minver)
+    if r.posts or w.posts:
+        r.flags.add('post')
+    return {'name': ctx.name, 'module': ctx.mod.__name__, 'file': ctx.file, 'post_rd': post_rd, 'post_wr': post_wr,
             'rd': r.items, 'wr': wr_items, 'oversize': r.oversize, 'minver': minver, 'rebind': r.rebind,
             'rebind_nested': r.rebind_nested, 'substream': r.substream,
             'flags': sorted(r.flags | w.flags),
@@ -1795,7 +1922,8 @@ def render_json(t):
     def cj(c):
         return {'name': c['name'], 'module': c['module'], 'file': c['file'], 'default_tag': c['default_tag'],
                 'oversize': c['oversize'], 'minver': c['minver'], 'rebind': c.get('rebind'), 'rebind_nested': c.get('rebind_nested'),
-                'substream': c.get('substream', True), 'flags': c['flags'], 'read_line': c['read_line'],
+                'substream': c.get('substream', True), 'post_rd': c.get('post_rd', []), 'post_wr': c.get('post_wr', []),
+                'flags': c['flags'], 'read_line': c['read_line'],
                 'write_line': c['write_line'],
                 'rd': [{k: (list(v) if k == 'kind' else v) for k, v in i.items()} for i in c['rd']],
                 'wr': [{k: (list(v) if k == 'kind' else v) for k, v in i.items()} for i in c['wr']]}
